@@ -55,6 +55,10 @@ func init() {
 		k, _ := strconv.Atoi(a[2])
 		src, pos := mkReader(unhx(a[1]), k, a[3])
 		ms, err := wsutil.ReadMessage(src, ws.State(st), nil)
+		if err == wsutil.ErrInvalidUTF8 {
+			// how far ReadAll's growing buffer had read ahead when the text turned out invalid is not the library's
+			return fmt.Sprintf("%s %s -", msgsStr(ms), classify(err))
+		}
 		return fmt.Sprintf("%s %s %d", msgsStr(ms), classify(err), pos())
 	}
 	ops["rdd"] = func(a []string) string {
@@ -95,6 +99,9 @@ func init() {
 		}
 		if err != nil && a[1] != "D" {
 			op = 0
+		}
+		if err == wsutil.ErrInvalidUTF8 {
+			return fmt.Sprintf("%d:%s %s - @%s masks=%s", op, hx(p), classify(err), writesStr(d.writes), masks)
 		}
 		return fmt.Sprintf("%d:%s %s %d @%s masks=%s", op, hx(p), classify(err), pos(), writesStr(d.writes), masks)
 	}
@@ -148,6 +155,9 @@ func init() {
 		}
 		var items []string
 		var nrReader io.Reader
+		// a Reader that has reported ErrInvalidUTF8 is finished (RFC 6455: fail the connection): what a caller that
+		// goes on regardless is handed alongside later errors, and how far the transport was read, is not compared
+		dead := false
 		for i, o := range a[5:] {
 			f := strings.Split(o, ":")
 			res := guard(func() string {
@@ -174,9 +184,15 @@ func init() {
 					if m > len(buf) || m < 0 {
 						return fmt.Sprintf("r,BADN%d,%s", m, classify(err))
 					}
+					if dead {
+						return fmt.Sprintf("r,-,%s", classify(err))
+					}
 					return fmt.Sprintf("r,%s,%s", hx(buf[:m]), classify(err))
 				case "ra":
 					b, err := ioutil.ReadAll(rd)
+					if dead {
+						return fmt.Sprintf("ra,-,%s", classify(err))
+					}
 					return fmt.Sprintf("ra,%s,%s", hx(b), classify(err))
 				case "d":
 					return "d," + classify(rd.Discard())
@@ -185,15 +201,32 @@ func init() {
 					if hasExt {
 						c = strconv.Itoa(b2i(ms.IsCompressed()))
 					}
+					if dead {
+						return fmt.Sprintf("st,%d,%s,-", rd.State, c)
+					}
 					return fmt.Sprintf("st,%d,%s,%d", rd.State, c, pos())
 				}
 				return "BADOP"
 			})
+
 			if strings.HasPrefix(res, "PANIC") {
 				items = append(items, "PANIC")
 				break
 			}
+			wasDead := dead
+			if strings.HasSuffix(res, ",utf8") {
+				dead = true
+			} else if f[0] == "d" {
+				dead = false // Discard resets the reader: a caller may drop the bad message and go on
+			}
+			if wasDead && f[0] != "d" {
+				// (still executed, so that a panic or a hang would show; what it returns is not compared)
+				res = f[0] + ",after-utf8"
+			}
 			items = append(items, res)
+		}
+		if dead {
+			return fmt.Sprintf("%s inter=%s -", strings.Join(items, ";"), msgsStr(collected))
 		}
 		return fmt.Sprintf("%s inter=%s %d", strings.Join(items, ";"), msgsStr(collected), pos())
 	}
